@@ -6,6 +6,7 @@ package main
 import (
 	"fmt"
 	"go/ast"
+	"math/big"
 	"go/token"
 	"go/types"
 	"sort"
@@ -710,7 +711,7 @@ func (x *FnExec) execInstr(fr *Frame, in ssa.Instruction, st *State, g *Term) *T
 	case *ssa.MakeSlice:
 		ln := x.toRefSort(fr.val(v.Len).(*Term), v.Len.Type())
 		cp := x.toRefSort(fr.val(v.Cap).(*Term), v.Cap.Type())
-		x.oblige("MAKE", "make: 0 <= len <= cap", g, tc.And(x.intLe(x.refConst(0), ln), x.intLe(ln, cp), x.intLe(cp, x.intConstSort(1<<47, x.refSort()))), v.Pos())
+		x.oblige("MAKE", "make: 0 <= len <= cap", g, tc.And(x.intLe(x.refConst(0), ln), x.intLe(ln, cp)), v.Pos())
 		fr.vals[v] = x.allocSlice(st, v.Type().Underlying().(*types.Slice).Elem(), ln, cp)
 	case *ssa.Store:
 		p := x.ptrPlace(fr.val(v.Addr), v.Addr.Type())
@@ -936,6 +937,9 @@ func (x *FnExec) loadGlobal(st *State, gl *ssa.Global) Value {
 		}
 		x.globErrs[gl] = e
 		return e
+	}
+	if str, ok := x.E.bytesGlobal[gl]; ok {
+		return x.constBytesGlobal(st, gl, str)
 	}
 	// arbitrary but fixed during the activation unless havocked
 	p := &Place{kind: pkGlobal, glob: gl, obj: t}
@@ -1364,4 +1368,30 @@ func (x *FnExec) rangeInit(fr *Frame, v *ssa.Range, st *State, g *Term) Value {
 func (x *FnExec) rangeNext(fr *Frame, v *ssa.Next, st *State, g *Term) Value {
 	unsupp("range next")
 	return nil
+}
+
+// constBytesGlobal: a never-reassigned []byte global initialised from a string constant.
+// Assumption (listed in evidence): nobody mutates its elements and no input aliases it.
+func (x *FnExec) constBytesGlobal(st *State, gl *ssa.Global, s string) Value {
+	tc := x.tc
+	ref := tc.Sym("globarr:"+gl.String(), x.refSort())
+	if !x.ranged[-ref.id] {
+		x.ranged[-ref.id] = true
+		x.addFact(tc.And(x.intLt(x.refConst(0), ref), x.intLt(ref, x.entry.alloc)))
+		x.notes = append(x.notes, "global byte slice "+gl.Name()+" treated as the constant "+fmt.Sprintf("%q", s)+" (never reassigned; element immutability assumed)")
+	}
+	n := x.refConst(int64(len(s)))
+	sl := &SliceV{ref, x.refConst(0), n, n}
+	for i := 0; i < len(s); i++ {
+		p := &Place{kind: pkElem, arr: ref, idx: x.refConst(int64(i)), elem: types.Typ[types.Uint8]}
+		el := x.load(st, p).(*Term)
+		var c *Term
+		if x.bv {
+			c = tc.BV(big.NewInt(int64(s[i])), 8)
+		} else {
+			c = tc.Int(int64(s[i]))
+		}
+		x.addFact(tc.Eq(el, c))
+	}
+	return sl
 }
